@@ -20,20 +20,36 @@ from rig import Infra
 META = {
     "title": "MiniTmpl: reference semantics of the template control constructs (extension, decides no listed property)",
     "engine": "TmplSem",
-    "technique": "TLA+ reference interpreter (big-step, recursive operators) of text / show / if / for / range / for in with else / switch with fallthrough / break / continue / var and assignments / macro declarations and calls / using in its once and macro forms / default / and-or-not with Scriggo's truth of values; TLC enumerates every shape of templates up to a node bound, fills the expression slots by rotation, checks sanity theorems of the reference on every case, prints the source; the real renderer runs every case; a TLC Trace spec re-interprets every tree and compares outputs",
+    "technique": "TLA+ reference interpreter (big-step, recursive operators) of text / comment / raw / show / if / for in its three-clause, condition-only and condition-less forms / range and for in over slices, strings and one-key maps, with else / switch with fallthrough / select with a default clause / break / continue / var and assignments / macro declarations (string, int, bool parameters, bounded recursion) and calls / using in its once and macro forms / default on names and on macro calls / and-or-not with Scriggo's truth of values / import, extends and render by translation to one file; TLC enumerates every shape of templates up to a node bound, fills the expression slots by rotation, checks sanity theorems of the reference on every case, prints the source; the real renderer runs every case; a TLC Trace spec re-interprets every tree and compares outputs",
     "level": "model_checking",
     "level_text": "Quick: every shape (tree of construct kinds) of <= 3 nodes with 2 fills each, 6000 pseudo-random shapes of 4..8 nodes, 3600 expression cases (every and / or / not / comparison / arithmetic expression of depth 1 over atoms of every type + a band of depth 2, as condition and as show operand), 12 hand-written probes x 3 global configurations; thorough: every shape of <= 4 nodes (62 318) + 20 000 pseudo-random shapes of 5..9 nodes. About a third of the cases that are valid in HTML run as index.html, the others as index.txt; three configurations of host globals. TLC checks seven sanity theorems of the reference on every case (two states per case), the real BuildTemplate + Run renders every case, TLC re-prints and re-interprets every tree and compares.",
     "level_note": "Diagnostic family: its mismatches are classified by hand (reference wrong / Scriggo departs from its documentation or from Go).",
     "design_ref": "extension X01",
 }
 FAMS = ["tmplsem"]
-THEOREMS = ["ThInDomain", "ThIfTrue", "ThForZeroElse", "ThUsingShow", "ThMacroCall", "ThOnceVsMacro", "ThSize"]
+THEOREMS = ["ThInDomain", "ThIfTrue", "ThForZeroElse", "ThUsingShow", "ThMacroCall", "ThOnceVsMacro", "ThLayout", "ThSize"]
 
 # ---- hand classification of the mismatches seen so far (pattern on the signature computed by Trace_TmplSem; "*" and
 # sub-dict matching as in known-findings.json).  class: "known" = a departure of Scriggo that is already recorded for a
 # listed property, "scriggo" = Scriggo departs from its own documentation / tests or from Go (reported to the integrator),
 # anything unmatched is printed as "unclassified".
 CLASSIFIED = [
+    {"signature": {"cause": "fallthrough-after-macro-or-using-refused"}, "class": "scriggo",
+     "what": "regression of 304e9cf: a fallthrough that IS the last statement of its clause is refused ('fallthrough statement out of place') when the "
+             "clause contains a using statement or a macro declaration, because checkNodes replaces `nodes` with a transformed copy before the identity "
+             "test `&cas.Body[0] == &nodes[0]`.  Go: fallthrough may be the last statement of a clause.  Fix: /tmp/x01_fix_fallthrough_after_using.diff"},
+    {"signature": {"cause": "continue-after-or-in-for-without-condition"}, "class": "scriggo",
+     "what": "`for { }` / `for ;; post { }` (no condition): the emitter never pops the loop's label from rangeLabels and uses the head (not the post "
+             "statement) as the continue target: a continue AFTER such a loop in an enclosing loop targets the finished inner loop (the run ends silently "
+             "or loops), and a continue inside `for i := 0; ; i++` skips i++ (infinite loop).  Fix: /tmp/x01_fix_for_without_condition.diff"},
+    {"signature": {"cause": "map-range-key-in-wrong-register"}, "class": "scriggo",
+     "what": "`for k := range m` / `for k in m` over a map with non-int keys: emitForRange allocates the key variable with newRegister(reflect.Int) whatever "
+             "its type, so a string key is written to / read from the string register of that NUMBER: it clobbers another string variable "
+             "(`s := \"k\"; for w := range map[string]int{\"a\": 7} { s += w }` gives \"aa\", gc \"ka\").  Fix: /tmp/x01_fix_range_map_key_register.diff"},
+    {"signature": {"cause": "run-error-in-nested-macro-call-panics-into-host"}, "class": "scriggo",
+     "what": "a run-time error inside a block-level macro (closure) called from another block-level macro makes Template.Run PANIC into the host instead "
+             "of returning a *PanicError: the inner closure runs in a nested VM whose PanicError is rethrown as a fatalError "
+             "(`{% macro Q %}{{ l[5] }}{% end %}{% macro Main %}{{ Q() }}{% end %}{{ Main() }}`).  Fix: /tmp/x01_fix_closure_panic_not_fatal.diff"},
     {"signature": {"cause": "context-not-restored-after-end-using"}, "class": "scriggo",
      "what": "lexer: the `using` of `{% end using %}` is taken for the start of a using statement and pushes a context that nothing pops; inside a "
              "macro / using body with a written type (string) the HTML context is then not restored after the outer {% end %}: the rest of the "
@@ -54,9 +70,10 @@ CLASSIFIED = [
 ]
 
 # ---- the token table of the printer (spec/tmplsem/TmplText.tla), regenerated at every run from the sources
-ENV_NAMES = ["n", "m", "s", "t", "b", "l", "q", "i", "v", "w", "p", "k", "y", "f", "M", "P", "K", "N", "O", "itea", "zz", "yy", "ZZ"]
+ENV_NAMES = ["n", "m", "s", "t", "b", "c", "l", "q", "i", "v", "w", "u", "p", "k", "y", "f", "M", "P", "K", "N", "O", "Q", "itea", "zz", "yy", "ZZ",
+             "Main", "V", "Body", "Side", "R"]
 OTHER_TOKENS = ["_", "gs", "gn", "gu", "+", "-", "*", "/", "%", "==", "!=", "<", "<=", ">", ">=", "=", "+=", "-=", "++", "--",
-                "int", "string", "html", "if", "for", "switch", "macro", "using", "break", "continue"]
+                "int", "string", "bool", "html", "txt", "if", "for", "switch", "select", "raw", "macro", "using", "break", "continue", "index", "f", "l", "p", "q"]
 
 
 def text_module(srcs):
@@ -139,7 +156,7 @@ def theorems(ctx, g):
     return {"states": r.distinct, "transitions": r.generated, "wall_s": round(r.wall, 1)}
 
 
-OBS_KEYS = ("id", "fam", "fmt", "pre", "glob", "tree", "src", "outcome", "out")
+OBS_KEYS = ("id", "fam", "fmt", "lay", "pre", "glob", "tree", "src", "outcome", "out")
 
 
 def judge(ctx, step, observations, shards=None):
@@ -203,7 +220,7 @@ def corrupted(allobs, seed):
 
 
 def show(o):
-    return {"fmt": o["fmt"], "fam": o["fam"], "globals": {g["n"]: (rig.b2s(g["s"]) if g["t"] == "str" else g["i"]) for g in o["glob"]},
+    return {"fmt": o["fmt"], "fam": o["fam"], "layout": o["lay"], "globals": {g["n"]: (rig.b2s(g["s"]) if g["t"] == "str" else g["i"]) for g in o["glob"]},
             "src": rig.b2s(o["src"]), "outcome": o["outcome"], "out": rig.b2s(o["out"]), "msg": o.get("msg", "")[:200]}
 
 
@@ -235,7 +252,7 @@ def run(ctx, only_cases=None, frame=None):
         cases, seen = [], set()
         for g in gens:
             for c in g["cases"]:
-                key = (c["fmt"], json.dumps(c["glob"]), bytes(c["src"]))
+                key = (c["fmt"], c["lay"], json.dumps(c["glob"]), bytes(c["src"]))
                 if key not in seen:
                     seen.add(key)
                     cases.append(c)
@@ -244,8 +261,8 @@ def run(ctx, only_cases=None, frame=None):
                        bounds=gens[0]["bounds"] + (f" (generated by {len(gens)} TLC processes)" if len(gens) > 1 else ""))
     else:
         cases = only_cases
-    fr = rig.read_ndjson(frame)[0]
-    ctx.cov["every_template"] = {"starts_with": rig.b2s(fr["head"]), "ends_with": rig.b2s(fr["tail"])}
+    ctx.cov["layouts"] = {fr["lay"]: {f["name"] + ".txt": rig.b2s(f["head"]) + ("<TREE>" if f["hole"] else "") + rig.b2s(f["tail"]) for f in fr["files"]}
+                          for fr in rig.read_ndjson(frame) if fr["fmt"] == "txt"}
     cfile = ctx.work / "cases.ndjson"
     rig.write_ndjson(cfile, cases)
     obs = ctx.work / "obs.ndjson"
@@ -318,7 +335,7 @@ def run(ctx, only_cases=None, frame=None):
             d = next(x for x in diags if json.dumps(x["signature"], sort_keys=True) == sk)
             w = d["witness"]
             print(f"DIAGNOSTIC tmplsem {sk} [{len(lst)} case(s); {d['class']}]")
-            print(f"  source ({w['fmt']}, globals {w['globals']}): {w['src']}")
+            print(f"  source ({w['fmt']}, layout {w['layout']}, globals {w['globals']}): {w['src']}")
             print(f"  reference: {w['reference_outcome']} {w['reference_out']!r}   real: {w['outcome']} {w['out']!r} {w['msg']}")
             shown += 1
         if len(sigs) > 6:
